@@ -149,116 +149,227 @@ def to_frac(t, cache):
 def FEq(l, r):
     l, r = Frac.of(l), Frac.of(r); m = Frac._lcm(l.d, r.d)
     for k, (term, p) in m.items(): _DV[k] = term
-    return RGoal('eq', Frac._scale(l.n, l.d, m), Frac._scale(r.n, r.d, m))
-def with_divisors(spec):
-    """spec -> spec + one obligation per divisor of the code met while cross-multiplying: it is non-zero for every input satisfying the precondition"""
-    def sp(i, o):
-        _DV.clear(); g = list(spec(i, o))
-        return g + [('divisor!=0[%d]' % k, d != 0) for k, d in enumerate(_DV[j] for j in sorted(_DV))]
-    return sp
-def check_real(S, U, fn, spec, pre, name, bounds, mutant=None, known=(), timeout=None, ins=None, mandatory=True, unwind=16, solver='z3'):
-    """(1) the executor's side obligations (code's divisors != 0, sqrt arguments >= 0, loop bounds) under pre;  (2) the goals, cross-multiplied"""
-    S.check_fn(U, fn, None, pre, mode='real', name=name + '.domain', timeout=timeout, bounds=bounds, ins=ins, mandatory=mandatory, unwind=unwind, solver=solver)
-    S.check_fn(U, fn, with_divisors(spec), pre, mode='real', name=name, timeout=timeout, bounds=bounds, ins=ins, mandatory=mandatory, unwind=unwind, side=False, witness=False, mutant=mutant, known=known, solver=solver)
+    g = RGoal('eq', Frac._scale(l.n, l.d, m), Frac._scale(r.n, r.d, m)); g.divs = set(m); return g
+_CMP = {z3.Z3_OP_EQ: lambda n: n == 0, z3.Z3_OP_DISTINCT: lambda n: n != 0, z3.Z3_OP_LE: lambda n: n <= 0, z3.Z3_OP_LT: lambda n: n < 0, z3.Z3_OP_GE: lambda n: n >= 0, z3.Z3_OP_GT: lambda n: n > 0}
+def nodiv(b, used=None):
+    """Boolean term -> equivalent division-free Boolean term, valid wherever every divisor of the code is non-zero (the divisors are collected in `used` and _DV;
+    each is proved non-zero separately).  l op r  <=>  N op 0 for l - r = N/D and op in {=, !=};  for the order relations N*D' op 0 with D' the product of the divisors
+    of odd power (N/D = N*D/D^2)."""
+    kd = b.decl().kind(); ch = b.children()
+    if kd in _CMP and len(ch) == 2 and z3.is_real(ch[0]):
+        f = to_frac(ch[0], _FC) - to_frac(ch[1], _FC)
+        if not f.d: return b
+        n = f.n
+        for k in sorted(f.d):
+            term, pw = f.d[k]; _DV[k] = term
+            if used is not None: used[k] = term
+            if pw % 2 and kd not in (z3.Z3_OP_EQ, z3.Z3_OP_DISTINCT): n = n * term
+        return _CMP[kd](n)
+    if z3.is_bool(b) and ch and all(z3.is_bool(c) for c in ch) and kd in (z3.Z3_OP_AND, z3.Z3_OP_OR, z3.Z3_OP_NOT, z3.Z3_OP_IMPLIES, z3.Z3_OP_ITE, z3.Z3_OP_EQ, z3.Z3_OP_XOR):
+        nc = [nodiv(c, used) for c in ch]
+        if kd == z3.Z3_OP_AND: return z3.And(*nc)
+        if kd == z3.Z3_OP_OR: return z3.Or(*nc)
+        if kd == z3.Z3_OP_NOT: return z3.Not(nc[0])
+        if kd == z3.Z3_OP_IMPLIES: return z3.Implies(nc[0], nc[1])
+        if kd == z3.Z3_OP_ITE: return z3.If(nc[0], nc[1], nc[2])
+        if kd == z3.Z3_OP_XOR: return z3.Xor(nc[0], nc[1])
+        return nc[0] == nc[1]
+    return b
+def _subterm_ids(t, acc):
+    st = [t]
+    while st:
+        x = st.pop()
+        if x.get_id() in acc: continue
+        acc.add(x.get_id()); st.extend(x.children())
+    return acc
+
+def check_real(S, U, fn, spec, pre, name, bounds, mutant=None, known=(), timeout=None, ins=None, mandatory=True, unwind=16, solver='z3', only=None):
+    """Rounding-erased check of one wrapper, every query division-free:
+    (1) '<name>.divisor!=0[k]': each divisor of the code (met in the goals, the executor's obligations or the sqrt axioms) is non-zero for EVERY input satisfying pre;
+        they are proved in execution order, each from pre, the axioms whose own divisors are already proved and the earlier divisor facts;
+    (2) '<name>.domain.<kind>[..]': the executor's side obligations (sqrt arguments >= 0, loop bounds, memory) under pre;
+    (3) '<name>.<label>': the goals, cross-multiplied (FEq).   only(label) -> bool selects goals (to split one wrapper over several jobs)."""
+    timeout = timeout or S.cap(60, 180); f = U.fns[fn]
+    try: res = sym_call(U, fn, ins=ins, mode='real', unwind=unwind)
+    except Unsupported as e:
+        S.rec(name=name, kind='encode', result='unsupported', status='not-encoded', note=str(e), mandatory=mandatory, functions=[fn])
+        if mandatory: S.inconclusive.append('%s [not encoded: %s]' % (name, e))
+        return None
+    P = list(pre(res.ins)) if pre else []
+    fnlist = ['w_%s -> %s' % (fn, f.body.strip().replace('\n', ' ')[:160])]
+    binfo = ('unwind=%d; ' % unwind) + bounds + '; ll=' + U.ll_sha()
+    allvars = [x for row in res.ins for x in row if not z3.is_rational_value(x)]
+    _DV.clear()
+    goals = list(spec(res.ins, res.outs)) if spec else []
+    axs = []
+    for a in res.axioms:
+        u = {}; axs.append((nodiv(a, u), set(u)))
+    obs = [(kind, nodiv(cond), d) for kind, cond, d in res.obligations]
+    S.prove(name + '.witness', z3.BoolVal(False), P + list(res.axioms), timeout=S.cap(20, 60), kind='witness', functions=fnlist, bounds=binfo, expect='sat', mandatory=False)
+    # (1) divisors, in execution order (position of the executor's own division-by-zero obligation)
+    pos = {}
+    for n_, (kind, cond, d) in enumerate(res.obligations):
+        if 'division by zero' in d:
+            ids = _subterm_ids(cond, set())
+            for k in _DV:
+                if k in ids and k not in pos: pos[k] = n_
+    order = sorted(_DV, key=lambda k: (pos.get(k, 1 << 30), k))
+    proven = set(); facts = []
+    def hyps(): return P + [a for a, ds in axs if ds <= proven] + facts
+    sp = (spec, None)
+    for n_, k in enumerate(order):
+        d = _DV[k]
+        r, _m = S.prove('%s.divisor!=0[%d]' % (name, n_), d != 0, hyps(), timeout=timeout, solver=solver, kind='domain', functions=fnlist, vars_=allvars, mandatory=mandatory,
+                        bounds=binfo + '; divisor ' + d.sexpr()[:80].replace('\n', ' '), replay=S._replayer(res, None, pre, U, fn, 'real', name + '.divisor'))
+        if r == 'unsat': proven.add(k); facts.append(d != 0)
+    H = hyps()
+    # (2) executor obligations
+    groups = {}
+    for kind, cond, d in obs: groups.setdefault((kind, d), []).append(cond)
+    for (kind, d), conds in groups.items():
+        g = z3.Not(z3.Or(*conds)) if len(conds) > 1 else z3.Not(conds[0])
+        if z3.is_true(z3.simplify(g)): continue
+        S._prove_known('%s.domain.%s[%s]' % (name, kind, d[:60]), g, H, res, known, timeout=timeout, solver=solver, kind=kind, functions=fnlist, bounds=binfo, spec_fn=None, pre_fn=pre,
+                       unit=U, fname=fn, mode='real', vars_=allvars, mandatory=mandatory)
+    # (3) goals
+    for label, g in goals:
+        if only is not None and not only(label): continue
+        if not getattr(g, 'divs', set()) <= proven:      # cross-multiplied with a divisor that was not proved non-zero: the goal is not attempted
+            S.rec(name='%s.%s' % (name, label), kind='spec', functions=fnlist, bounds=binfo, solver='-', result='unknown', time_s=0.0, status='inconclusive', mandatory=mandatory, note='a divisor of this goal was not proved non-zero')
+            if mandatory: S.inconclusive.append('%s.%s [a divisor of this goal was not proved non-zero]' % (name, label))
+            continue
+        S._prove_known('%s.%s' % (name, label), goal_term(g), H, res, known, timeout=timeout, solver=solver, kind='spec', functions=fnlist, bounds=binfo, spec_fn=(spec, label), pre_fn=pre,
+                       unit=U, fname=fn, mode='real', vars_=allvars, mandatory=mandatory)
+    if mutant is not None and not S.quick:
+        for label, g in mutant(res.ins, res.outs):
+            S.prove('%s.twin.%s' % (name, label), goal_term(g), H, timeout=timeout, solver=solver, kind='mutant-twin', functions=fnlist, bounds=binfo, expect='sat', mandatory=False, vars_=allvars)
+    return res
 
 def ident_goals(tag, X, Y, L):
     """(X*Y)[c][r] == delta for column-major X, Y (lists of columns)"""
     P = mmul(X, Y)
-    return [('%s[%d][%d]' % (tag, c, r), FEq(P[c][r], delta(c, r, P[c][r]))) for c in range(L) for r in range(L)]
+    return [('%s[%d][%d]' % (tag, c, r), FEq(P[c][r], delta(c, r))) for c in range(L) for r in range(L)]
+def det_pre(L, k=0): return lambda i: [leibniz(unflat(i[k], L, L)) != 0]
+
+# ---- specifications (i: input arrays, o: output arrays; used by the rounding-erased jobs and, on the mirrored fp term, by the exact clause)
+def inverse_spec(L):
+    def spec(i, o):
+        A = unflat(fr(i[0]), L, L); I = unflat(rv(o[0]), L, L)
+        return ident_goals('inverse(M)*M', I, A, L) + ident_goals('M*inverse(M)', A, I, L)
+    return spec
+def det_spec(L):
+    def spec(i, o):
+        A = unflat(fr(i[0]), L, L); B = unflat(fr(i[1]), L, L); d = rv(o[0])
+        return [('determinant==Leibniz', FEq(d[0], leibniz(A))), ('determinant(transpose)', FEq(d[1], leibniz(A))), ('determinant(A*B)==det(A)*det(B)', FEq(d[2], leibniz(A) * leibniz(B)))]
+    return spec
+def invT_specs(L):
+    def spec_id(i, o):
+        # independent of glm::inverse: X = transpose(inverseTranspose(M)) is a two-sided inverse of M
+        A = unflat(fr(i[0]), L, L); IT = unflat(rv(o[0]), L, L)
+        return ident_goals('transpose(inverseTranspose(M))*M', transpose(IT), A, L) + ident_goals('M*transpose(inverseTranspose(M))', A, transpose(IT), L)
+    def spec_eq(i, o):
+        # the literal statement: the two rational functions produced by the code compared entry by entry
+        IT = unflat(rv(o[0]), L, L); I = unflat(rv(o[1]), L, L)
+        return [('inverseTranspose==transpose(inverse)[%d][%d]' % (c, r), FEq(IT[c][r], I[r][c])) for c in range(L) for r in range(L)]
+    return spec_id, (lambda i, o: spec_id(i, o) + spec_eq(i, o))
+def affine_spec(L):
+    def spec(i, o):
+        A = unflat(fr(i[0]), L, L); AI = unflat(rv(o[0]), L, L); I = unflat(rv(o[1]), L, L)
+        g = [('affineInverse==inverse[%d][%d]' % (c, r), FEq(AI[c][r], I[c][r])) for c in range(L) for r in range(L)]
+        return g + ident_goals('affineInverse(M)*M', AI, A, L) + ident_goals('M*affineInverse(M)', A, AI, L)
+    return spec
+def div_spec(L):
+    """X = A / B is A * inverse(B): the unique X with X * B == A; x = B / v is inverse(B) * v: B * x == v; y = v / B is v * inverse(B): y * B == v (operand order matters)"""
+    def spec(i, o):
+        A = unflat(fr(i[0]), L, L); B = unflat(fr(i[1]), L, L); v = fr(i[2])
+        X = unflat(rv(o[0]), L, L); x = rv(o[1]); y = rv(o[2]); X2 = unflat(rv(o[3]), L, L)
+        XB = mmul(X, B); X2B = mmul(X2, B); Bx = mulv(B, x); yB = vmul(y, B)
+        g = [('(A/B)*B==A[%d][%d]' % (c, r), FEq(XB[c][r], A[c][r])) for c in range(L) for r in range(L)]
+        g += [('B*(B/v)==v[%d]' % r, FEq(Bx[r], v[r])) for r in range(L)]
+        g += [('(v/B)*B==v[%d]' % k, FEq(yB[k], v[k])) for k in range(L)]
+        g += [('(A/=B)*B==A[%d][%d]' % (c, r), FEq(X2B[c][r], A[c][r])) for c in range(L) for r in range(L)]
+        return g
+    return spec
+def adj_spec(L):
+    def spec(i, o):
+        A = unflat(fr(i[0]), L, L); J = unflat(rv(o[0]), L, L); P = mmul(J, A); Q = mmul(A, J); d = leibniz(A); z = Frac(z3.RealVal(0))
+        return [('adjugate(M)*M==det*I[%d][%d]' % (c, r), FEq(P[c][r], d if c == r else z)) for c in range(L) for r in range(L)] + \
+               [('M*adjugate(M)==det*I[%d][%d]' % (c, r), FEq(Q[c][r], d if c == r else z)) for c in range(L) for r in range(L)]
+    return spec
 
 def job_inverse(t, L):
     U = UNITS[t]
     def run(S):
-        def spec(i, o):
-            A = unflat(fr(i[0]), L, L); I = unflat(rv(o[0]), L, L)
-            return ident_goals('inverse(M)*M', I, A, L) + ident_goals('M*inverse(M)', A, I, L)
         def mut(i, o):
             A = unflat(fr(i[0]), L, L); I = unflat(rv(o[0]), L, L); P = mmul(transpose(I), A)
-            return [('transposed-inverse', FEq(P[1][0], zero(P[1][0])))]
-        check_real(S, U, 'inv_%d' % L, spec, lambda i: [leibniz(unflat(i[0], L, L)) != 0], 'c10_%s.inverse%d.real' % (t, L), 'all real %dx%d matrices with det != 0' % (L, L), mutant=mut, timeout=S.cap(60, 180))
+            return [('transposed-inverse', FEq(P[1][0], Frac(z3.RealVal(0))))]
+        check_real(S, U, 'inv_%d' % L, inverse_spec(L), det_pre(L), 'c10_%s.inverse%d.real' % (t, L), 'all real %dx%d matrices with det != 0' % (L, L), mutant=mut, timeout=S.cap(60, 180))
+        scaled_instances(S, U, t, 'inv_%d' % L, inverse_spec(L), L, 'c10_%s.inverse%d' % (t, L))
     return run
+
+# Instances M = s * U0 for a fixed small-integer unimodular U0 and one symbolic scale 1/4096 <= |s| <= 4096 (det = +-s^L down to 2^-48): redundant with the general obligation
+# above, but a counterexample here is a well-scaled matrix whose native replay is robust (a general real counterexample may need entries that overflow or cancel in floats).
+UNIMOD0 = {2: [[1, 2], [1, 3]], 3: [[1, 2, 0], [0, 1, 3], [1, 2, 1]], 4: [[1, 2, 0, 1], [0, 1, 3, 0], [1, 2, 1, 2], [0, 1, 3, 1]]}       # columns; det = 1 each (checked by the witness)
+def scaled_ins(L, affine=False):
+    s = z3.Real('a0'); M = UNIMOD0[L]
+    if affine:       # upper-left block s * U0(L-1), translation s*(1,2,..), last row (0,..,0,1)
+        B = UNIMOD0[L - 1]
+        return [[(s * B[c][r] if c < L - 1 else s * (r + 1)) if r < L - 1 else z3.RealVal(1 if c == L - 1 else 0) for c in range(L) for r in range(L)]], s
+    return [[s * M[c][r] for c in range(L) for r in range(L)]], s
+def scaled_instances(S, U, t, fn, spec, L, name, affine=False, which=0, nins=1):
+    ins, s = scaled_ins(L, affine)
+    full = [[z3.Real('%s%d' % ('abcdefgh'[a], k)) for k in range(n)] for a, (c, n) in enumerate(U.fns[fn].ins)]
+    full[which] = ins[0]
+    pre = lambda i: [z3.Or(z3.And(s >= z3.Q(1, 4096), s <= 4096), z3.And(s <= -z3.Q(1, 4096), s >= -4096))]
+    check_real(S, U, fn, spec, pre, name + '.scaled-unimodular.real', 'M = s * U0, U0 = %s (columns), 2^-12 <= |s| <= 2^12' % UNIMOD0[L - 1 if affine else L], ins=full, timeout=S.cap(60, 180))
 
 def job_det(t, L):
     U = UNITS[t]
     def run(S):
-        def spec(i, o):
-            A = unflat(fr(i[0]), L, L); B = unflat(fr(i[1]), L, L); d = rv(o[0])
-            return [('determinant==Leibniz', FEq(d[0], leibniz(A))), ('determinant(transpose)', FEq(d[1], leibniz(A))), ('determinant(A*B)==det(A)*det(B)', FEq(d[2], leibniz(A) * leibniz(B)))]
         def mut(i, o):
             A = unflat(fr(i[0]), L, L); A2 = [list(c) for c in A]; A2[0][0], A2[0][1] = A2[0][1], A2[0][0]
             return [('swapped-entry', FEq(rv(o[0])[0], leibniz(A2)))]
-        S.check_fn(U, 'det_%d' % L, spec, mode='real', name='c10_%s.determinant%d.real' % (t, L), mutant=mut, timeout=S.cap(90, 240), bounds='all real %dx%d matrices' % (L, L))
+        check_real(S, U, 'det_%d' % L, det_spec(L), None, 'c10_%s.determinant%d.real' % (t, L), 'all real %dx%d matrices' % (L, L), mutant=mut, timeout=S.cap(60, 180))
     return run
 
 def job_invT(t, L):
     U = UNITS[t]
     def run(S):
-        pre = lambda i: [leibniz(unflat(i[0], L, L)) != 0]
-        def spec_eq(i, o):
-            IT = unflat(rv(o[0]), L, L); I = unflat(rv(o[1]), L, L)
-            return [('inverseTranspose==transpose(inverse)[%d][%d]' % (c, r), FEq(IT[c][r], I[r][c])) for c in range(L) for r in range(L)]
-        def spec_id(i, o):
-            # independent of glm::inverse: X = transpose(inverseTranspose(M)) is a two-sided inverse of M
-            A = unflat(fr(i[0]), L, L); IT = unflat(rv(o[0]), L, L)
-            return ident_goals('transpose(inverseTranspose(M))*M', transpose(IT), A, L) + ident_goals('M*transpose(inverseTranspose(M))', A, transpose(IT), L)
         def mut(i, o):
             IT = unflat(rv(o[0]), L, L); I = unflat(rv(o[1]), L, L)
             return [('not-transposed', FEq(IT[1][0], I[1][0]))]
-        kn = []
-        check_real(S, U, 'invT_%d' % L, spec_id, pre, 'c10_%s.inverseTranspose%d.real' % (t, L), 'all real %dx%d matrices with det != 0' % (L, L), known=kn, mutant=mut, timeout=S.cap(60, 180))
-        # the literal statement (two rational functions produced by the code compared entry by entry); for 4x4 the nonlinear solver does not finish -> optional there
-        S.check_fn(U, 'invT_%d' % L, spec_eq, pre, mode='real', name='c10_%s.inverseTranspose%d.vs-inverse.real' % (t, L), known=kn, witness=False, side=False,
-                   timeout=S.cap(60, 180), bounds='all real %dx%d matrices with det != 0' % (L, L))
+        check_real(S, U, 'invT_%d' % L, invT_specs(L)[1], det_pre(L), 'c10_%s.inverseTranspose%d.real' % (t, L), 'all real %dx%d matrices with det != 0' % (L, L), mutant=mut, timeout=S.cap(60, 180))
+        scaled_instances(S, U, t, 'invT_%d' % L, invT_specs(L)[0], L, 'c10_%s.inverseTranspose%d' % (t, L))
     return run
 
 def affine_ins(L):
     """column-major LxL matrix whose last row is (0,..,0,1)"""
-    ins = []
-    for c in range(L):
-        for r in range(L):
-            ins.append(z3.Real('a%d' % (c * L + r)) if r < L - 1 else z3.RealVal(1 if c == L - 1 else 0))
-    return [ins]
+    return [[z3.Real('a%d' % (c * L + r)) if r < L - 1 else z3.RealVal(1 if c == L - 1 else 0) for c in range(L) for r in range(L)]]
 def job_affine(t, L):
     U = UNITS[t]
     def run(S):
-        def spec(i, o):
-            A = unflat(fr(i[0]), L, L); AI = unflat(rv(o[0]), L, L); I = unflat(rv(o[1]), L, L)
-            g = [('affineInverse==inverse[%d][%d]' % (c, r), FEq(AI[c][r], I[c][r])) for c in range(L) for r in range(L)]
-            return g + ident_goals('affineInverse(M)*M', AI, A, L)
         def mut(i, o):
             AI = unflat(rv(o[0]), L, L); I = unflat(rv(o[1]), L, L)
             return [('translation-sign', FEq(AI[L - 1][0], -I[L - 1][0]))]
-        check_real(S, U, 'aff_%d' % L, spec, lambda i: [leibniz(unflat(i[0], L, L)) != 0], 'c10_%s.affineInverse%d.real' % (t, L), 'all real affine %dx%d matrices (last row 0..0 1) with det != 0' % (L, L),
+        check_real(S, U, 'aff_%d' % L, affine_spec(L), det_pre(L), 'c10_%s.affineInverse%d.real' % (t, L), 'all real affine %dx%d matrices (last row 0..0 1) with det != 0' % (L, L),
                    ins=affine_ins(L), mutant=mut, timeout=S.cap(60, 180))
+        scaled_instances(S, U, t, 'aff_%d' % L, affine_spec(L), L, 'c10_%s.affineInverse%d' % (t, L), affine=True)
     return run
 
 def job_div(t, L):
     U = UNITS[t]
     def run(S):
-        def spec(i, o):
-            A = unflat(fr(i[0]), L, L); B = unflat(fr(i[1]), L, L); v = fr(i[2])
-            X = unflat(rv(o[0]), L, L); x = rv(o[1]); y = rv(o[2]); X2 = unflat(rv(o[3]), L, L)
-            XB = mmul(X, B); X2B = mmul(X2, B); Bx = mulv(B, x); yB = vmul(y, B)
-            g = [('(A/B)*B==A[%d][%d]' % (c, r), FEq(XB[c][r], A[c][r])) for c in range(L) for r in range(L)]
-            g += [('B*(B/v)==v[%d]' % r, FEq(Bx[r], v[r])) for r in range(L)]
-            g += [('(v/B)*B==v[%d]' % k, FEq(yB[k], v[k])) for k in range(L)]
-            g += [('(A/=B)*B==A[%d][%d]' % (c, r), FEq(X2B[c][r], A[c][r])) for c in range(L) for r in range(L)]
-            return g
         def mut(i, o):
             A = unflat(fr(i[0]), L, L); B = unflat(fr(i[1]), L, L); X = unflat(rv(o[0]), L, L); BX = mmul(B, X)
             return [('left-division', FEq(BX[1][0], A[1][0]))]
-        check_real(S, U, 'div_%d' % L, spec, lambda i: [leibniz(unflat(i[1], L, L)) != 0], 'c10_%s.divide%d.real' % (t, L), 'all real A, v; all real B with det(B) != 0', mutant=mut, timeout=S.cap(90, 240))
+        check_real(S, U, 'div_%d' % L, div_spec(L), det_pre(L, 1), 'c10_%s.divide%d.real' % (t, L), 'all real A, v; all real B with det(B) != 0', mutant=mut, timeout=S.cap(60, 180))
+        scaled_instances(S, U, t, 'div_%d' % L, div_spec(L), L, 'c10_%s.divide%d' % (t, L), which=1)
     return run
 
 def job_adj(t, L):
     U = UNITS[t]
     def run(S):
-        def spec(i, o):
-            A = unflat(fr(i[0]), L, L); J = unflat(rv(o[0]), L, L); P = mmul(J, A); Q = mmul(A, J); d = leibniz(A)
-            return [('adjugate(M)*M==det*I[%d][%d]' % (c, r), FEq(P[c][r], d if c == r else zero(d))) for c in range(L) for r in range(L)] + \
-                   [('M*adjugate(M)==det*I[%d][%d]' % (c, r), FEq(Q[c][r], d if c == r else zero(d))) for c in range(L) for r in range(L)]
-        kn = {3: ['KF-C10-adjugate3-%d%d' % (c, r) for c in range(3) for r in range(3)], 4: ['KF-C10-adjugate4-%d%d' % (c, r) for c in range(4) for r in range(4)]}.get(L, [])
-        S.check_fn(U, 'adj_%d' % L, spec, mode='real', name='c10_%s.adjugate%d.real' % (t, L), known=kn, timeout=S.cap(60, 180), bounds='all real %dx%d matrices' % (L, L))
+        check_real(S, U, 'adj_%d' % L, adj_spec(L), None, 'c10_%s.adjugate%d.real' % (t, L), 'all real %dx%d matrices' % (L, L), timeout=S.cap(60, 180))
     return run
 
 def job_diag(t, L):
@@ -267,12 +378,12 @@ def job_diag(t, L):
         def spec(i, o):
             v = fr(i[0]); I = unflat(rv(o[0]), L, L); d = rv(o[1])[0]; p = v[0]
             for k in range(1, L): p = p * v[k]
-            g = [('inverse(diagonal(v))[%d][%d]' % (c, r), FEq(I[c][r] * v[c], one(v[0])) if c == r else FEq(I[c][r], zero(v[0]))) for c in range(L) for r in range(L)]
+            g = [('inverse(diagonal(v))[%d][%d]' % (c, r), FEq(I[c][r] * v[c], delta(0, 0)) if c == r else FEq(I[c][r], delta(0, 1))) for c in range(L) for r in range(L)]
             return g + [('determinant(diagonal(v))', FEq(d, p))]
         check_real(S, U, 'diag_%d' % L, spec, lambda i: [x != 0 for x in i[0]], 'c10_%s.diagonal%d.real' % (t, L), 'all real v with nonzero components', timeout=S.cap(60, 180))
     return run
 
-def job_qr(t, C, R, which, mandatory):
+def job_qr(t, C, R, which, mandatory, part=None):
     U = UNITS[t]; m = min(C, R)
     def indep(i):
         """the first min(C,R) columns (qr) / last rows (rq) are linearly independent: Gram determinant != 0"""
@@ -281,6 +392,12 @@ def job_qr(t, C, R, which, mandatory):
         else: vs = [[A[c][R - 1 - k] for c in range(C)] for k in range(m)]
         G = [[ssum([x * y for x, y in zip(u, w)]) for w in vs] for u in vs]
         return [leibniz(G) != 0]
+    labels = []
+    def sel(label):
+        """part = (k, n): every n-th goal starting with the k-th (large shapes are split over several jobs)"""
+        if part is None: return True
+        if label not in labels: labels.append(label)
+        return labels.index(label) % part[1] == part[0]
     def run(S):
         def spec(i, o):
             A = unflat(fr(i[0]), C, R)
@@ -289,15 +406,226 @@ def job_qr(t, C, R, which, mandatory):
                 P = mmul(Q, Rm); QtQ = mmul(transpose(Q), Q)
                 g = [('Q*R==M[%d][%d]' % (c, r), FEq(P[c][r], A[c][r])) for c in range(C) for r in range(R)]
                 g += [('QtQ==I[%d][%d]' % (c, r), FEq(QtQ[c][r], delta(c, r, QtQ[c][r]))) for c in range(m) for r in range(m)]
-                g += [('R-upper-triangular[%d][%d]' % (c, r), FEq(Rm[c][r], zero(Rm[c][r]))) for c in range(C) for r in range(m) if r > c]
+                g += [('R-upper-triangular[%d][%d]' % (c, r), FEq(Rm[c][r], delta(0, 1))) for c in range(C) for r in range(m) if r > c]
             else:
                 Rm = unflat(rv(o[0]), m, R); Q = unflat(rv(o[1]), C, m)        # R: m columns of R rows; Q: C columns of m rows
                 P = mmul(Rm, Q); QQt = mmul(Q, transpose(Q))
                 g = [('R*Q==M[%d][%d]' % (c, r), FEq(P[c][r], A[c][r])) for c in range(C) for r in range(R)]
                 g += [('QQt==I[%d][%d]' % (c, r), FEq(QQt[c][r], delta(c, r, QQt[c][r]))) for c in range(m) for r in range(m)]
+                if C == R: g += [('R-upper-triangular[%d][%d]' % (c, r), FEq(Rm[c][r], delta(0, 1))) for c in range(m) for r in range(R) if r > c]
             return g
         check_real(S, U, '%s_%d%d' % (which, C, R), spec, indep, 'c10_%s.%s_decompose%dx%d.real' % (t, which, C, R), 'all real %dx%d matrices with independent leading columns/rows; sqrt as algebraic y>=0, y*y=x' % (C, R),
-                   timeout=S.cap(60, 300), mandatory=mandatory, unwind=8)
+                   timeout=S.cap(90, 240) if mandatory else S.cap(20, 40), mandatory=mandatory, unwind=8, solver='nra', only=sel)
+    return run
+
+# ------------------------------------------------------------------ exact clause (small-integer unimodular matrices)
+# Claim: for integer-valued entries |m_ij| <= kmax and det = +-1 the IEEE result of the compiled code equals the mathematical value (so inverse(M)*M == I etc. hold
+# with ==).  Established per wrapper on its bit-precise ('fp' mode) term:
+#  (1) structure: the term consists of RNE fadd/fsub/fmul/fdiv at the type's own precision, negations, integer-valued literals and the input entries only;
+#  (2) every fdiv divides by a node whose exact value is the Leibniz determinant of the stated input matrix (polynomial identity, solver) - hence by +-1;
+#  (3) by induction over the term every node's exact value is an integer of magnitude < 2^24 (f32) / 2^53 (f64): the bound of each node follows from its children's
+#      bounds by a one-step interval lemma proved by the solver over the integers (|x| <= bx, |y| <= by => |x op y| <= b), x / (+-1) = x * (+-1) likewise;
+#      integers of that magnitude are representable, and IEEE correct rounding returns a representable exact result exactly (ASSUMPTIONS), so every rounding is the identity
+#      and the IEEE value of each output is the value of its rounding-erased mirror;
+#  (4) the rounding-erased mirror satisfies the goal (the same specification functions as the *.real jobs, cross-multiplied; solver).
+# A failed goal (4) is re-searched over the integers (entries in range, det = +-1) and replayed natively with exact rational arithmetic.
+def _is_rne(x): return x.decl().kind() == z3.Z3_OP_FPA_RM_NEAREST_TIES_TO_EVEN
+class ExactWalk:
+    def __init__(s, W, leaves, kmax):
+        s.W = W; s.leaves = leaves; s.kmax = kmax; s.cache = {}; s.steps = set(); s.divs = {}; s.maxb = 0; s.nodes = 0; s.keep = []
+    def lit(s, t):
+        if t.isNaN() or t.isInf(): raise Structure('literal ' + t.sexpr())
+        v = z3.simplify(z3.fpToReal(t)); f = Fraction(v.numerator_as_long(), v.denominator_as_long())
+        if f.denominator != 1: raise Structure('non-integer literal %s' % f)
+        return z3.RealVal(int(f)), abs(int(f))
+    def fp(s, t):
+        key = ('f', t.get_id())
+        if key in s.cache: return s.cache[key]
+        k = t.decl().kind()
+        if k in (z3.Z3_OP_FPA_ADD, z3.Z3_OP_FPA_SUB, z3.Z3_OP_FPA_MUL, z3.Z3_OP_FPA_DIV):
+            if not _is_rne(t.arg(0)): raise Structure('rounding mode ' + t.arg(0).sexpr())
+            if t.sort().ebits() + t.sort().sbits() != s.W: raise Structure('precision %s' % t.sort())
+            (x, bx), (y, by) = s.fp(t.arg(1)), s.fp(t.arg(2)); s.nodes += 1
+            if k == z3.Z3_OP_FPA_DIV:
+                s.divs.setdefault(t.arg(2).get_id(), y); r = (x / y, bx); s.steps.add(('div', bx, 1))
+            elif k == z3.Z3_OP_FPA_MUL: r = (x * y, bx * by); s.steps.add(('mul', bx, by))
+            else: r = ((x + y) if k == z3.Z3_OP_FPA_ADD else (x - y), bx + by); s.steps.add(('add' if k == z3.Z3_OP_FPA_ADD else 'sub', bx, by))
+            s.maxb = max(s.maxb, r[1])
+        elif k == z3.Z3_OP_FPA_NEG:
+            x, bx = s.fp(t.arg(0)); r = (-x, bx)
+        elif k == z3.Z3_OP_FPA_TO_FP and t.num_args() == 1 and z3.is_bv(t.arg(0)):
+            if t.sort().ebits() + t.sort().sbits() != s.W: raise Structure('precision %s' % t.sort())
+            r = s.bits(t.arg(0))
+        elif z3.is_fp_value(t): r = s.lit(t)
+        else: raise Structure('operation ' + t.decl().name())
+        s.cache[key] = r; s.keep.append(t); return r
+    def bits(s, b):
+        key = ('b', b.get_id())
+        if key in s.cache: return s.cache[key]
+        k = b.decl().kind(); sign = 1 << (s.W - 1)
+        if b.get_id() in s.leaves: r = (s.leaves[b.get_id()], s.kmax)
+        elif k == z3.Z3_OP_FPA_TO_IEEE_BV: r = s.fp(b.arg(0))
+        elif k == z3.Z3_OP_BXOR and b.num_args() == 2 and z3.is_bv_value(b.arg(1)) and b.arg(1).as_long() == sign: x, bx = s.bits(b.arg(0)); r = (-x, bx)
+        elif k == z3.Z3_OP_BXOR and b.num_args() == 2 and z3.is_bv_value(b.arg(0)) and b.arg(0).as_long() == sign: x, bx = s.bits(b.arg(1)); r = (-x, bx)
+        elif z3.is_bv_value(b): r = s.lit(z3.simplify(z3.fpBVToFP(b, FSORT[s.W])))
+        else: raise Structure('bit-level operation ' + b.decl().name())
+        s.cache[key] = r; s.keep.append(b); return r
+
+_STEP_DONE = {}
+def step_lemma(S, op, bx, by, pfx):
+    """|x| <= bx, |y| <= by (integers)  =>  |x op y| <= b;   div: y = +-1  =>  x / y = x * y (an integer of the same magnitude)"""
+    key = (op, bx, by, pfx)
+    if key in _STEP_DONE: return _STEP_DONE[key]
+    x, y = z3.Int('x'), z3.Int('y')
+    if op == 'div':
+        hy = [z3.Or(y == 1, y == -1)]; goal = z3.ToReal(x) / z3.ToReal(y) == z3.ToReal(x * y); nm = 'x/y==x*y[y=+-1]'
+    else:
+        hy = [x >= -bx, x <= bx, y >= -by, y <= by]; b = bx * by if op == 'mul' else bx + by
+        v = x * y if op == 'mul' else (x + y if op == 'add' else x - y); goal = z3.And(v <= b, v >= -b); nm = '|x%sy|<=%d[|x|<=%d,|y|<=%d]' % ({'mul': '*', 'add': '+', 'sub': '-'}[op], b, bx, by)
+    r, _ = S.prove('%s.lemma.%s' % (pfx, nm), goal, hy, timeout=S.cap(20, 60), kind='lemma', functions=['interval step over the integers'], bounds='all integers in the stated ranges')
+    _STEP_DONE[key] = (r == 'unsat'); return _STEP_DONE[key]
+
+def exact_check(S, U, fn, t, spec, detexpr, name, ins=None, unimod=True, only=None, entries=None, family=None):
+    """spec(K, outs) as in the *.real jobs; detexpr(K) -> the Leibniz determinant every fdiv must divide by (None: the wrapper must not divide);
+    entries {output array: [indices]} restricts the walk to those output entries (the others are dummies: select the goals over the walked entries with only)"""
+    W = 32 if t == 'f32' else 64; LIM = 1 << (24 if t == 'f32' else 53); f = U.fns[fn]
+    res = sym_call(U, fn, ins=ins, mode='fp')
+    fnlist = ['w_%s -> %s' % (fn, f.body.strip().replace('\n', ' ')[:160])]
+    K = []; leaves = {}
+    for a, row in enumerate(res.ins):
+        kr = []
+        for k, x in enumerate(row):
+            if z3.is_bv_value(x): kr.append(None)
+            else:
+                v = z3.Real('k%s%d' % ('abcdefgh'[a], k)); kr.append(v); leaves[x.get_id()] = v
+        K.append(kr)
+    walk = None; err = None
+    for kmax in (8, 4, 2, 1):
+        w = ExactWalk(W, leaves, kmax)
+        try: outsM = [[RV(W, w.fp(o.fp)[0]) if (entries is None or k_ in entries.get(oi_, ())) else RV(W, z3.RealVal(0)) for k_, o in enumerate(row)] for oi_, row in enumerate(res.outs)]
+        except Structure as e: err = e; break
+        if w.maxb < LIM: walk = w; break
+    binfo = 'entries integer-valued, |x| <= %d%s; bit-precise %s term of the compiled code; ll=%s' % (walk.kmax if walk else 8, ', det = +-1' if unimod else '', TYPES[t], U.ll_sha())
+    if walk is None:
+        why = ('%s appears in the float term' % err) if err else 'interval bound of an intermediate reaches 2^%d even for |x| <= 1' % (24 if t == 'f32' else 53)
+        S.rec(name=name + '.structure', kind='structure', result='unknown', status='inconclusive', note=why, mandatory=True, functions=fnlist, bounds=binfo)
+        S.inconclusive.append('%s [exact clause not established: %s]' % (name, why)); return
+    S.rec(name=name + '.structure', kind='structure', functions=fnlist, bounds=binfo, solver='term walk: RNE fadd/fsub/fmul/fdiv, negation, integer literals, inputs only (%d nodes)' % walk.nodes, result='unsat', time_s=0.0, status='discharged', mandatory=True)
+    # concrete inputs (affine last row) enter as literals; K rows for the specification
+    def kval(a, k):
+        if K[a][k] is not None: return K[a][k]
+        x = res.ins[a][k]; return walk.lit(z3.simplify(z3.fpBVToFP(x, FSORT[W])))[0]
+    Kf = [[kval(a, k) for k in range(len(row))] for a, row in enumerate(res.ins)]
+    kvars = [v for row in K for v in row if v is not None]
+    rng = [h for v in kvars for h in (v >= -walk.kmax, v <= walk.kmax)]
+    dets = detexpr(Kf) if detexpr else None
+    # (2) divisors
+    if walk.divs and dets is None:
+        S.rec(name=name + '.divisor', kind='structure', result='unknown', status='inconclusive', note='unexpected fdiv', mandatory=True, functions=fnlist, bounds=binfo)
+        S.inconclusive.append('%s [exact clause not established: the float term divides]' % name); return
+    for n_, (k, y) in enumerate(sorted(walk.divs.items())):
+        _DV.clear(); g = FEq(to_frac(y, _FC), dets)
+        S.prove('%s.divisor==determinant[%d]' % (name, n_), g.term(), [d != 0 for d in _DV.values()], timeout=S.cap(60, 180), kind='spec', functions=fnlist, bounds=binfo + '; polynomial identity over the reals')
+    # (3) representability
+    ok = all([step_lemma(S, op, bx, by, name) for (op, bx, by) in sorted(walk.steps)])
+    S.rec(name=name + '.intermediates-representable', kind='spec', functions=fnlist, bounds=binfo + '; %d arithmetic nodes, largest interval bound %d < 2^%d' % (walk.nodes, walk.maxb, 24 if t == 'f32' else 53),
+          solver='interval induction over the term; %d one-step lemmas (*.exact.lemma.*) by z3' % len(walk.steps), result='unsat' if ok else 'unknown', time_s=0.0, status='discharged' if ok else 'inconclusive', mandatory=True)
+    if not ok: S.inconclusive.append(name + '.intermediates-representable [an interval step lemma was not proved]')
+    # (4) values
+    _DV.clear(); goals = [(l, g) for l, g in spec(Kf, outsM) if only is None or only(l)]
+    hy = [d != 0 for d in _DV.values()]           # the code's divisors: equal to the determinant by (2), which is +-1
+    ki = {v.decl().name(): z3.Int(v.decl().name() + 'i') for v in kvars}
+    sub = [(v, z3.ToReal(ki[v.decl().name()])) for v in kvars]
+    def mkreplay(label, ev):
+        def replay(m):
+            vals = []
+            for a, row in enumerate(res.ins):
+                vals.append([float_to_bits(float(m.eval(ev(ki[K[a][k].decl().name()]), model_completion=True).as_long()), W) if K[a][k] is not None else x.as_long() for k, x in enumerate(row)])
+            info = {'unit': U.name, 'fn': fn, 'inputs': [[hex(b) for b in row] for row in vals], 'pin_name': name, 'obligation': name + '.' + label}
+            cin = [[z3.RealVal(str(bits_to_fraction(v, W))) for v in row] for row in vals]
+            bad = False
+            for cxx in ('g++', 'clang++-14'):
+                nat = U.call_native(fn, vals, cxx=cxx); info['native_out_' + cxx] = [[hex(v) for v in r] for r in nat]
+                for r_ in nat:
+                    for v in r_:
+                        d = bits_to_float(v, W)
+                        if d != d or d in (float('inf'), float('-inf')): bad = True
+                if not bad:
+                    g = dict(spec(cin, concretize(f.outs, nat, mode='real')))[label]
+                    if z3val_to_fraction(g.l) != z3val_to_fraction(g.r): bad = True
+            return ('reproduced' if bad else 'not-reproduced'), info
+        return replay
+    ih = [h for v in kvars for h in (ki[v.decl().name()] >= -walk.kmax, ki[v.decl().name()] <= walk.kmax)]
+    # a sub-family of the integer matrices with det = +-1 that needs no determinant constraint: M = s * L * U (unit lower times unit upper triangular, parameters in [-2, 2])
+    fam = family(lambda a, k: ki[K[a][k].decl().name()] if K[a][k] is not None else None) if (family and unimod) else None
+    n_unknown = 0
+    for label, g in goals:
+        oname = '%s.%s' % (name, label); gt = goal_term(g)
+        r, m_, dt, used = S.query(hy + [z3.Not(gt)], S.cap(60, 180), 'z3')
+        if r == 'unsat':
+            S.rec(name=oname, kind='spec', functions=fnlist, bounds=binfo, solver=used + ' (rounding-erased mirror of the fp term, cross-multiplied)', result='unsat', time_s=round(dt, 3), status='discharged', mandatory=True); continue
+        gi = z3.substitute(gt, *sub); hi = [z3.substitute(h, *sub) for h in hy]
+        if fam is not None and n_unknown < 2:
+            fsub, fhyps = fam
+            q = [z3.substitute(x, *fsub) for x in ih + hi] + fhyps + [z3.Not(z3.substitute(gi, *fsub))]
+            r2, m2, dt2, used2 = S.query(q, S.cap(20, 60), 'z3')
+            if r2 == 'sat':
+                rec = S.rec(name=oname, kind='spec', functions=fnlist, bounds=binfo + '; counterexample searched in the family M = s*L*U', solver=used2, result='sat', time_s=round(dt + dt2, 3), mandatory=True, status='counterexample')
+                verdict, info = mkreplay(label, lambda v: z3.substitute(v, *fsub))(m2); rec['replay'] = verdict; rec['replay_info'] = info
+                if verdict == 'reproduced': S.violations.append((oname, info))
+                else:
+                    rec['status'] = 'inconclusive(cex not reproduced)'; S.inconclusive.append(oname + ' [counterexample not reproduced natively]')
+                continue
+        if n_unknown >= 2:
+            S.rec(name=oname, kind='spec', functions=fnlist, bounds=binfo, solver=used, result='unknown', time_s=round(dt, 3), mandatory=True, status='inconclusive', note='real identity fails; integer search skipped after two timeouts in this wrapper')
+            S.inconclusive.append(oname); continue
+        if unimod and dets is not None:
+            di = z3.substitute(dets, *sub); ihd = ih + [z3.Or(di == 1, di == -1)]
+        else: ihd = ih
+        r3, _ = S.prove(oname, gi, ihd + hi, timeout=S.cap(30, 120), kind='spec', functions=fnlist, bounds=binfo + '; integer search after the real identity failed', replay=mkreplay(label, lambda v: v), vars_=list(ki.values()))
+        if r3 == 'unknown': n_unknown += 1
+
+def lu_family(L, entry, pfx='p'):
+    """entry(c, r) -> Int variable of the matrix entry or None (constant);  returns (substitution, hypotheses) for M = s * Lo * Up"""
+    P = lambda i, j: z3.Int('%s%d%d' % (pfx, i, j)); s = z3.Int(pfx + 's')
+    Lo = [[(z3.IntVal(1) if r == c else (P(r, c) if r > c else z3.IntVal(0))) for r in range(L)] for c in range(L)]      # [c][r]
+    Up = [[(z3.IntVal(1) if r == c else (P(r, c) if r < c else z3.IntVal(0))) for r in range(L)] for c in range(L)]
+    M = [[z3.simplify(ssum([Lo[k][r] * Up[c][k] for k in range(L)])) for r in range(L)] for c in range(L)]
+    sub = []; hy = [z3.Or(s == 1, s == -1)] + [h for i in range(L) for j in range(L) if i != j for h in (P(i, j) >= -2, P(i, j) <= 2)]
+    for c in range(L):
+        for r in range(L):
+            v = entry(c, r)
+            if v is not None: sub.append((v, M[c][r] * s if c == 0 else M[c][r]))
+    return sub, hy
+
+def affine_bits(L, W):
+    """fp-mode inputs: column-major LxL matrix whose last row is the float constants (0,..,0,1)"""
+    one_ = float_to_bits(1.0, W)
+    return [[z3.BitVec('a%d' % (c * L + r), W) if r < L - 1 else z3.BitVecVal(one_ if c == L - 1 else 0, W) for c in range(L) for r in range(L)]]
+
+def job_exact(t, L, what):
+    U = UNITS[t]; W = 32 if t == 'f32' else 64
+    def run(S):
+        pfx = 'c10_%s.%s%d.exact' % (t, what, L)
+        det0 = lambda K: leibniz(unflat(K[0], L, L)); det1 = lambda K: leibniz(unflat(K[1], L, L))
+        if what == 'inverse':
+            def spec(i, o):
+                A = unflat(fr(i[0]), L, L); IA = unflat(rv(o[0]), L, L); AI = unflat(rv(o[1]), L, L); I = unflat(rv(o[2]), L, L)
+                g = [('inverse(M)*M==I[%d][%d]' % (c, r), FEq(IA[c][r], delta(c, r))) for c in range(L) for r in range(L)]
+                g += [('M*inverse(M)==I[%d][%d]' % (c, r), FEq(AI[c][r], delta(c, r))) for c in range(L) for r in range(L)]
+                return g + ident_goals('inverse(M)·M=I(inverse exact)', I, A, L)
+            exact_check(S, U, 'unimod_%d' % L, t, spec, det0, pfx, family=lambda ki: lu_family(L, lambda c, r: ki(0, c * L + r)))
+        elif what == 'determinant':
+            exact_check(S, U, 'det_%d' % L, t, det_spec(L), None, pfx, unimod=False, entries={0: [0, 1]}, only=lambda l: 'A*B' not in l)
+            exact_check(S, U, 'det_%d' % L, t, det_spec(L), None, pfx + '.product', unimod=False, entries={0: [2]}, only=lambda l: 'A*B' in l)
+        elif what == 'inverseTranspose':
+            exact_check(S, U, 'invT_%d' % L, t, invT_specs(L)[1], det0, pfx, family=lambda ki: lu_family(L, lambda c, r: ki(0, c * L + r)))
+        elif what == 'affineInverse':
+            exact_check(S, U, 'aff_%d' % L, t, affine_spec(L), det0, pfx, ins=affine_bits(L, W), family=lambda ki: lu_family(L - 1, lambda c, r: ki(0, c * L + r)))
+        elif what == 'divide':
+            exact_check(S, U, 'div_%d' % L, t, div_spec(L), det1, pfx, family=lambda ki: lu_family(L, lambda c, r: ki(1, c * L + r)))
+        elif what == 'adjugate':
+            exact_check(S, U, 'adj_%d' % L, t, adj_spec(L), None, pfx, unimod=False)
     return run
 
 def job_query(t, L):
@@ -313,17 +641,31 @@ def job_query(t, L):
             return [('isIdentity', (o[0][0] == 1) == z3.And(*conds))]
         S.check_fn(U, 'query_%d' % L, spec, lambda i: [z3.Not(is_nan(x)) for x in i[0] + i[1]], mode='fp', name='c10_%s.isIdentity%d' % (t, L), timeout=S.cap(90, 240),
                    bounds='all non-NaN entries and epsilon; |m[i][j] - delta_ij| <= epsilon evaluated in IEEE arithmetic', unwind=8, side=False)
+        def spec_null(i, o):
+            # 'null matrix' in the sense of the vector overload it is built from: every column has Euclidean length <= epsilon
+            A = unflat(i[0], L, L); e = i[1][0]
+            cs = [z3.And(e >= 0, ssum([x * x for x in A[c]]) <= e * e) for c in range(L)]
+            return [('isNull=>column%d' % c, z3.Implies(o[0][1] == 1, cs[c])) for c in range(L)] + [('columns=>isNull', z3.Implies(z3.And(*cs), o[0][1] == 1))]
+        S.check_fn(U, 'query_%d' % L, spec_null, None, mode='real', name='c10_%s.isNull%d.real' % (t, L), timeout=S.cap(60, 180), bounds='all real entries and epsilon; sqrt as algebraic y>=0, y*y=x', unwind=8)
     return run
 
+QR_QUICK = {('qr', 2, 2), ('qr', 3, 2), ('qr', 2, 3), ('rq', 2, 2), ('rq', 2, 3), ('rq', 3, 2)}
+EXACT = ['inverse', 'determinant', 'inverseTranspose', 'affineInverse', 'divide', 'adjugate']
 def jobs(tier):
     q = tier == 'quick'; J = []
-    for t in (('f32',) if q else ('f32', 'f64')):
+    for t in ('f32', 'f64'):
         for L in (2, 3, 4):
             J += [('inverse_%s_%d' % (t, L), job_inverse(t, L)), ('det_%s_%d' % (t, L), job_det(t, L)), ('invT_%s_%d' % (t, L), job_invT(t, L)),
                   ('div_%s_%d' % (t, L), job_div(t, L)), ('adj_%s_%d' % (t, L), job_adj(t, L)), ('diag_%s_%d' % (t, L), job_diag(t, L)), ('query_%s_%d' % (t, L), job_query(t, L))]
             if L > 2: J.append(('affine_%s_%d' % (t, L), job_affine(t, L)))
+            for what in EXACT:
+                if what == 'affineInverse' and L == 2: continue
+                J.append(('exact_%s_%s_%d' % (what, t, L), job_exact(t, L, what)))
         for (C, R) in QR_SHAPES:
-            J.append(('qr_%s_%d%d' % (t, C, R), job_qr(t, C, R, 'qr', (C, R) == (2, 2))))
-            J.append(('rq_%s_%d%d' % (t, C, R), job_qr(t, C, R, 'rq', (C, R) == (2, 2))))
+            for which in ('qr', 'rq'):
+                if (which, C, R) in QR_QUICK: J.append(('%s_%s_%d%d' % (which, t, C, R), job_qr(t, C, R, which, True)))
+                elif not q and t == 'f32':
+                    n = 3 if C == 3 else 6
+                    for k in range(n): J.append(('%s_%s_%d%d_part%d' % (which, t, C, R, k), job_qr(t, C, R, which, False, (k, n))))
     return J
 JOB_CAP = {'quick': 600, 'thorough': 2400}
